@@ -93,20 +93,15 @@ theorem loopFuncPhase_facts (P : Prog σ) (e : Engine σ) :
     (loopFuncPhase P e).1.handlers = e.handlers ∧ (loopFuncPhase P e).1.hs = e.hs ∧ (loopFuncPhase P e).1.sendq = e.sendq ∧
     (loopFuncPhase P e).1.clock = e.clock ∧ enqs (loopFuncPhase P e).2 = [] := by
   unfold loopFuncPhase
-  by_cases h : (P.loopFunc e.client).2 = true
-  · simp [h, enqs]
-  · simp [h, enqs]
+  simp [loopFuncGuarded_eq, enqs]
 
 /-! ### the whole iteration -/
-
-/-- no way out of `_thread_func`: no `on_retry_failed` raises and `_loop_func` does not raise -/
-def NoDeath (P : Prog σ) : Prop := NoRaise P ∧ ∀ c, (P.loopFunc c).2 = false
 
 /-- one iteration, seen from an unanswered handler `h` with the default on_retry_failed that no callback touches: with `s` = its
 state after the send phase (only `last_destination` may have been set, from one of its own queue entries) and `c` the clock of the
 loop phase, its state is `tick c s` if it is registered, it is registered afterwards iff it was and `tick` did not flag it, and the
 only `queue_send` for it is the one `tick` makes -/
-theorem iter_summary (P : Prog σ) (h : HId) (hq : Quiet P h) (hnd : NoDeath P) (hf : (P.spec h).onFail = .remove)
+theorem iter_summary (P : Prog σ) (h : HId) (hq : Quiet P h) (hf : (P.spec h).onFail = .remove)
     (e : Engine σ) (env : Env) (ha : e.alive = true) (hun : ∀ d, env.dgram = some d → Unanswered P h d) :
     ∃ s : HState,
       (s = e.hs h ∨ ∃ d, (h, some d) ∈ e.sendq ∧ s = { e.hs h with lastDest := some d }) ∧
@@ -124,14 +119,14 @@ theorem iter_summary (P : Prog σ) (h : HId) (hq : Quiet P h) (hnd : NoDeath P) 
   have c1 : (afterRecv P e env).1.clock = e.clock + env.dtPre + env.dtRecv := by rw [qf.clock_eq]; simp only; rw [c0]
   have s1 : (afterRecv P e env).1.hs h = (afterSend P e env).1.hs h := qf.same hun
   have m1 : h ∈ (afterRecv P e env).1.handlers ↔ h ∈ e.handlers := by rw [qf.mem]; simp only; rw [h0]
-  obtain ⟨c2, h2, a2⟩ := loopAll_misc P hnd.1 (afterRecv P e env).1.handlers (afterRecv P e env).1
-  obtain ⟨s2, n2⟩ := loopAll_h P h hf hnd.1 (afterRecv P e env).1.handlers (afterRecv P e env).1
+  obtain ⟨c2, h2, a2⟩ := loopAll_misc P (afterRecv P e env).1.handlers (afterRecv P e env).1
+  obtain ⟨s2, n2⟩ := loopAll_h P h hf (afterRecv P e env).1.handlers (afterRecv P e env).1
   have fr2 := loopAll_frame P (afterRecv P e env).1.handlers (afterRecv P e env).1
   have hal : (afterLoop P e env).1.alive = true := by unfold afterLoop; rw [a2, afterRecv_alive]; exact ha
-  rw [engineIter_unfold P e env ha, if_pos hal]
+  rw [engineIter_unfold P e env ha]
   have hlf : (loopFuncPhase P (cleanup (afterLoop P e env).1)) =
       ({ cleanup (afterLoop P e env).1 with client := (P.loopFunc (cleanup (afterLoop P e env).1).client).1 }, []) := by
-    unfold loopFuncPhase; simp [hnd.2]
+    unfold loopFuncPhase; simp [loopFuncGuarded_eq]
   rw [hlf]
   refine ⟨(afterSend P e env).1.hs h, s0, hal, ?_, ?_, ?_, ?_, ?_⟩
   · show (afterLoop P e env).1.clock = _
@@ -237,16 +232,14 @@ theorem iter_gone (P : Prog σ) (h : HId) (hq : Quiet P h) (e : Engine σ) (env 
     have m2 : h ∉ (afterLoop P e env).1.handlers := by unfold afterLoop; rw [h2]; exact m1
     have n2' : enqsOf h (afterLoop P e env).2 = [] := n2
     rw [engineIter_unfold P e env ha]
-    split
-    · refine ⟨?_, ?_⟩
-      · have : (loopFuncPhase P (cleanup (afterLoop P e env).1)).1.handlers = (cleanup (afterLoop P e env).1).handlers :=
-          (loopFuncPhase_facts P _).1
-        show h ∉ (loopFuncPhase P (cleanup (afterLoop P e env).1)).1.handlers
-        rw [this]; unfold cleanup; simp only [List.mem_filter]; exact fun x => m2 x.1
-      · show enqsOf h (_ ++ (_ ++ (_ ++ _))) = []
-        rw [enqsOf_append, enqsOf_append, enqsOf_append, e0, qf.noEnq, n2']
-        unfold enqsOf; rw [(loopFuncPhase_facts P _).2.2.2.2]; rfl
-    · exact ⟨m2, by show enqsOf h (_ ++ (_ ++ _)) = []; rw [enqsOf_append, enqsOf_append, e0, qf.noEnq, n2']; rfl⟩
+    refine ⟨?_, ?_⟩
+    · have : (loopFuncPhase P (cleanup (afterLoop P e env).1)).1.handlers = (cleanup (afterLoop P e env).1).handlers :=
+        (loopFuncPhase_facts P _).1
+      show h ∉ (loopFuncPhase P (cleanup (afterLoop P e env).1)).1.handlers
+      rw [this]; unfold cleanup; simp only [List.mem_filter]; exact fun x => m2 x.1
+    · show enqsOf h (_ ++ (_ ++ (_ ++ _))) = []
+      rw [enqsOf_append, enqsOf_append, enqsOf_append, e0, qf.noEnq, n2']
+      unfold enqsOf; rw [(loopFuncPhase_facts P _).2.2.2.2]; rfl
 
 theorem run_gone (P : Prog σ) (h : HId) (hq : Quiet P h) : ∀ (steps : List Step) (e : Engine σ),
     (∀ s ∈ steps, s.mentions h = false) → h ∉ e.handlers →
@@ -289,13 +282,13 @@ structure RInv (h : HId) (T N : Nat) (dst : Dest) (s0 Δ : Time) (e : Engine σ)
     s0 + (N + 1) * T ≤ (e.hs h).start + ((e.hs h).retries + 1) * T
   gone : h ∉ e.handlers → k = N ∧ s0 + (N + 1) * T < e.clock
 
-theorem rinv_iter (P : Prog σ) (h : HId) (T N : Nat) (dst : Dest) (s0 Δ : Time) (hq : Quiet P h) (hnd : NoDeath P)
+theorem rinv_iter (P : Prog σ) (h : HId) (T N : Nat) (dst : Dest) (s0 Δ : Time) (hq : Quiet P h)
     (hT : (P.spec h).timeout = T) (hTpos : 0 < T) (hf : (P.spec h).onFail = .remove)
     (e : Engine σ) (k : Nat) (inv : RInv h T N dst s0 Δ e k) (env : Env) (hok : StepOK P h Δ (.iter env)) :
     RInv h T N dst s0 Δ (engineIter P e env).1 (k + (enqsOf h (engineIter P e env).2).length) ∧
     (∀ x ∈ enqsOf h (engineIter P e env).2, x = (h, some dst)) := by
   obtain ⟨hΔ, hun⟩ := hok
-  obtain ⟨s, hs, hal, hclk, hst, henq, hmem, hq'⟩ := iter_summary P h hq hnd hf e env inv.alive hun
+  obtain ⟨s, hs, hal, hclk, hst, henq, hmem, hq'⟩ := iter_summary P h hq hf e env inv.alive hun
   rw [hT] at hst henq hq'
   by_cases hm : h ∈ e.handlers
   · obtain ⟨l1, l2, l3, l4, l5, l6⟩ := inv.live hm
@@ -378,7 +371,7 @@ theorem rinv_iter (P : Prog σ) (h : HId) (T N : Nat) (dst : Dest) (s0 Δ : Time
     · exact absurd hxh a
     · exact a.1.elim
 
-theorem rinv_run (P : Prog σ) (h : HId) (T N : Nat) (dst : Dest) (s0 Δ : Time) (hq : Quiet P h) (hnd : NoDeath P)
+theorem rinv_run (P : Prog σ) (h : HId) (T N : Nat) (dst : Dest) (s0 Δ : Time) (hq : Quiet P h)
     (hT : (P.spec h).timeout = T) (hTpos : 0 < T) (hf : (P.spec h).onFail = .remove) :
     ∀ (steps : List Step) (e : Engine σ) (k : Nat), RInv h T N dst s0 Δ e k → (∀ s ∈ steps, StepOK P h Δ s) →
       RInv h T N dst s0 Δ (run P e steps).1 (k + (enqsOf h (run P e steps).2).length) ∧
@@ -389,13 +382,14 @@ theorem rinv_run (P : Prog σ) (h : HId) (T N : Nat) (dst : Dest) (s0 Δ : Time)
         (∀ x ∈ enqsOf h (step P e s).2, x = (h, some dst)) := by
       have hs := hok s (by simp)
       cases s with
-      | iter env => exact rinv_iter P h T N dst s0 Δ hq hnd hT hTpos hf e k inv env hs
+      | iter env => exact rinv_iter P h T N dst s0 Δ hq hT hTpos hf e k inv env hs
       | queueSend g d =>
         have hg : g ≠ h := hs
         have hb : (g == h) = false := by simpa using hg
         have hen : enqsOf h (step P e (.queueSend g d)).2 = [] := by simp [step, enqsOf, enqs, hb]
         rw [hen]
-        refine ⟨⟨inv.alive, ?_, by simpa [step, Engine.enq] using inv.live, by simpa [step, Engine.enq] using inv.gone⟩, by simp⟩
+        have hhs : (step P e (.queueSend g d)).1.hs h = e.hs h := enq_hs_other e g h d (fun x => hg x.symm)
+        refine ⟨⟨inv.alive, ?_, fun x => by rw [hhs]; simpa [step, Engine.enq] using inv.live x, by simpa [step, Engine.enq] using inv.gone⟩, by simp⟩
         intro x hx hxh
         simp only [step, Engine.enq, List.mem_append, List.mem_singleton] at hx
         rcases hx with hx | hx
@@ -416,7 +410,7 @@ theorem rinv_run (P : Prog σ) (h : HId) (T N : Nat) (dst : Dest) (s0 Δ : Time)
         rw [hen]
         refine ⟨⟨inv.alive, inv.qdst, fun x => ?_, by simpa [step] using inv.gone⟩, by simp⟩
         rw [hhs]; simpa [step] using inv.live x
-    obtain ⟨i1, i2⟩ := rinv_run P h T N dst s0 Δ hq hnd hT hTpos hf ss (step P e s).1 _ h1.1 (fun s' hs' => hok s' (by simp [hs']))
+    obtain ⟨i1, i2⟩ := rinv_run P h T N dst s0 Δ hq hT hTpos hf ss (step P e s).1 _ h1.1 (fun s' hs' => hok s' (by simp [hs']))
     unfold run
     simp only
     rw [enqsOf_append, List.length_append, ← Nat.add_assoc]
@@ -424,5 +418,130 @@ theorem rinv_run (P : Prog σ) (h : HId) (T N : Nat) (dst : Dest) (s0 Δ : Time)
     rcases List.mem_append.1 hx with hx | hx
     · exact h1.2 x hx
     · exact i2 x hx
+
+/-! ### which popped entries fail to be transmitted -/
+
+/-- a send fails only for a handler without `send_bytes` or a `None` destination -/
+def FailOK (P : Prog σ) (o : List Out) : Prop := ∀ x ∈ failedSends o, (P.spec x.1).sendable = false ∨ x.2 = none
+
+theorem failedSends_of_pops_nil : ∀ (o : List Out), pops o = [] → failedSends o = []
+  | [], _ => rfl
+  | a :: r, h => by
+    cases a <;> simp [pops] at h <;> simp [failedSends] <;> exact failedSends_of_pops_nil r h
+
+theorem FailOK.nil (P : Prog σ) : FailOK P [] := by intro x hx; simp [failedSends] at hx
+
+theorem FailOK.append {P : Prog σ} {a b : List Out} (ha : FailOK P a) (hb : FailOK P b) : FailOK P (a ++ b) := by
+  intro x hx
+  rw [failedSends_append] at hx
+  rcases List.mem_append.1 hx with h | h
+  · exact ha x h
+  · exact hb x h
+
+theorem FailOK.of_frame {P : Prog σ} {e e' : Engine σ} {o : List Out} (h : Frame e e' o) : FailOK P o := by
+  intro x hx; rw [failedSends_of_pops_nil o h.pops_nil] at hx; cases hx
+
+theorem processSend_fails (P : Prog σ) (e : Engine σ) : FailOK P (processSend P e).2 := by
+  unfold processSend
+  split
+  · exact FailOK.nil P
+  · unfold popSend
+    simp only [sendPopsFront_eq, if_true]
+    cases e.sendq with
+    | nil => exact FailOK.nil P
+    | cons x rest =>
+      obtain ⟨g, dest⟩ := x
+      simp only
+      split
+      · rename_i hs
+        intro x hx
+        simp only [failedSends, List.mem_singleton] at hx
+        subst hx; left; simpa using hs
+      · cases dest with
+        | none =>
+          intro x hx
+          simp only [failedSends, List.mem_singleton] at hx
+          subst hx; right; rfl
+        | some d => intro x hx; simp [failedSends] at hx
+
+theorem runPhase_fails (P : Prog σ) (env : Env) (p : Nat) (e : Engine σ) : FailOK P (runPhase P env p e).2 := by
+  unfold runPhase
+  split
+  · exact processSend_fails P e
+  · split
+    · exact FailOK.nil P
+    · exact FailOK.of_frame (dispatch_frame P _ _)
+  · exact FailOK.of_frame (loopAll_frame P _ _)
+  · exact FailOK.nil P
+  · exact FailOK.of_frame (loopFuncPhase_frame P _)
+  · exact FailOK.nil P
+
+theorem runPhases_fails (P : Prog σ) (env : Env) : ∀ (ps : List Nat) (e : Engine σ), FailOK P (runPhases P env ps e).2
+  | [], _ => FailOK.nil P
+  | p :: ps, e => by
+    unfold runPhases
+    split
+    · exact FailOK.nil P
+    · exact FailOK.append (runPhase_fails P env p e) (runPhases_fails P env ps _)
+
+theorem run_fails (P : Prog σ) : ∀ (steps : List Step) (e : Engine σ), FailOK P (run P e steps).2
+  | [], _ => FailOK.nil P
+  | s :: ss, e => by
+    unfold run
+    refine FailOK.append ?_ (run_fails P ss _)
+    cases s with
+    | iter env =>
+      show FailOK P (engineIter P e env).2
+      unfold engineIter
+      split
+      · exact FailOK.nil P
+      · exact runPhases_fails P env _ _
+    | queueSend g d => intro x hx; simp [step, failedSends] at hx
+    | register g => exact FailOK.nil P
+    | create g => exact FailOK.nil P
+
+theorem failedSends_sub_pops : ∀ (o : List Out) (x : HId × Option Dest), x ∈ failedSends o → x ∈ pops o
+  | [], _, h => by simp [failedSends] at h
+  | a :: r, x, h => by
+    cases a with
+    | sendFailed g d =>
+      simp only [failedSends, List.mem_cons] at h
+      simp only [pops, List.mem_cons]
+      rcases h with h | h
+      · left; exact h
+      · right; exact failedSends_sub_pops r x h
+    | sent g d t => simp only [failedSends] at h; simp only [pops, List.mem_cons]; right; exact failedSends_sub_pops r x h
+    | enq g d => simp only [failedSends] at h; simpa [pops] using failedSends_sub_pops r x h
+    | handled g d => simp only [failedSends] at h; simpa [pops] using failedSends_sub_pops r x h
+    | unhandled d => simp only [failedSends] at h; simpa [pops] using failedSends_sub_pops r x h
+    | raised g => simp only [failedSends] at h; simpa [pops] using failedSends_sub_pops r x h
+    | timedOut g => simp only [failedSends] at h; simpa [pops] using failedSends_sub_pops r x h
+    | failed g => simp only [failedSends] at h; simpa [pops] using failedSends_sub_pops r x h
+    | died => simp only [failedSends] at h; simpa [pops] using failedSends_sub_pops r x h
+
+/-- what was popped for `h` is what was transmitted for `h`, when none of its sends failed -/
+theorem popsOf_eq_sentsOf (h : HId) : ∀ (o : List Out), (∀ x ∈ failedSends o, x.1 ≠ h) →
+    (pops o).filter (fun x => x.1 == h) = ((sents o).filter (fun x => x.1 == h)).map (fun x => (x.1, some x.2))
+  | [], _ => rfl
+  | a :: r, hf => by
+    cases a with
+    | sent g d t =>
+      have ih := popsOf_eq_sentsOf h r (fun x hx => hf x (by simpa [failedSends] using hx))
+      simp only [pops, sents, List.filter_cons]
+      by_cases hg : (g == h) = true
+      · simp [hg, ih]
+      · simp [hg, ih]
+    | sendFailed g d =>
+      have hg : g ≠ h := hf (g, d) (by simp [failedSends])
+      have hb : (g == h) = false := by simpa using hg
+      have ih := popsOf_eq_sentsOf h r (fun x hx => hf x (by simp [failedSends, hx]))
+      simp [pops, sents, hb, ih]
+    | enq g d => simpa [pops, sents, failedSends] using popsOf_eq_sentsOf h r (fun x hx => hf x (by simpa [failedSends] using hx))
+    | handled g d => simpa [pops, sents, failedSends] using popsOf_eq_sentsOf h r (fun x hx => hf x (by simpa [failedSends] using hx))
+    | unhandled d => simpa [pops, sents, failedSends] using popsOf_eq_sentsOf h r (fun x hx => hf x (by simpa [failedSends] using hx))
+    | raised g => simpa [pops, sents, failedSends] using popsOf_eq_sentsOf h r (fun x hx => hf x (by simpa [failedSends] using hx))
+    | timedOut g => simpa [pops, sents, failedSends] using popsOf_eq_sentsOf h r (fun x hx => hf x (by simpa [failedSends] using hx))
+    | failed g => simpa [pops, sents, failedSends] using popsOf_eq_sentsOf h r (fun x hx => hf x (by simpa [failedSends] using hx))
+    | died => simpa [pops, sents, failedSends] using popsOf_eq_sentsOf h r (fun x hx => hf x (by simpa [failedSends] using hx))
 
 end GeckoModel.Threaded
